@@ -169,14 +169,22 @@ def guarded(thunk, ctx=None, seconds=None, budget=None):
     if not hasattr(signal, "setitimer") or sys.gettrace() is not None:
         return thunk()
     old = signal.signal(signal.SIGALRM, _alarm)
-    signal.setitimer(signal.ITIMER_REAL, seconds)
+    outer = signal.setitimer(signal.ITIMER_REAL, seconds)[0]  # suspends the per-case guard, if any
     try:
-        return thunk()
-    except HangTimeout:
-        pass
+        try:
+            return thunk()
+        except HangTimeout:
+            pass
+        finally:
+            signal.setitimer(signal.ITIMER_REAL, 0)
+            signal.signal(signal.SIGALRM, old)
+        return _after_watchdog(thunk, ctx, seconds, budget)
     finally:
-        signal.setitimer(signal.ITIMER_REAL, 0)
-        signal.signal(signal.SIGALRM, old)
+        if outer:
+            signal.setitimer(signal.ITIMER_REAL, CASE_WATCHDOG_S)
+
+
+def _after_watchdog(thunk, ctx, seconds, budget):
     if HANGS["confirmed"]:
         HANGS["assumed"] += 1
         if HANGS["assumed"] > 3:
@@ -289,11 +297,31 @@ class Ctx:
                 self.extra.setdefault(k, v)
 
 
+CASE_WATCHDOG_S = float(os.environ.get("VERIF_CASE_WATCHDOG_S", "900"))
+
+
+def with_case_watchdog(fn):
+    """Outer guard for library calls that are not wrapped in guarded() (pure helpers whose legitimate cost is
+    microseconds): a case that does not come back within 15 minutes is reported as a hang instead of blocking the
+    check for ever.  guarded() suspends this timer while its own (budget-backed) watchdog is active."""
+    if not hasattr(signal, "setitimer") or sys.gettrace() is not None:
+        return fn()
+    old = signal.signal(signal.SIGALRM, _alarm)
+    signal.setitimer(signal.ITIMER_REAL, CASE_WATCHDOG_S)
+    try:
+        return fn()
+    except HangTimeout:
+        raise Violation("hang", "the case did not finish within %.0f s of wall-clock time (outer guard; calls of this kind normally take microseconds)" % CASE_WATCHDOG_S)
+    finally:
+        signal.setitimer(signal.ITIMER_REAL, 0)
+        signal.signal(signal.SIGALRM, old)
+
+
 def evaluate(prop, spec, ctx):
     """One case in collect (or shrink-target) mode. Returns nothing; never raises in
     collect mode except for harness errors."""
     try:
-        nt = prop.check(spec, ctx)
+        nt = with_case_watchdog(lambda: prop.check(spec, ctx))
     except Violation as v:
         attr = getattr(prop, "attribute", None)
         known = attr(v.bucket, spec, v.msg) if attr else None
@@ -407,6 +435,19 @@ def run_shrink(prop, tier, shard_seed, examples, bucket, budget_s):
 Ctx.shrink_deadline = None
 
 
+def pool_map(fn, jobs, timeout_s=3600, procs=None):
+    """multiprocessing map for the enumerated parts; a worker that never returns becomes a violation, not a blocked check"""
+    import multiprocessing as mp
+
+    pool = mp.get_context("fork").Pool(min(procs or 16, os.cpu_count() or 1))
+    try:
+        return pool.map_async(fn, jobs, chunksize=1).get(timeout=timeout_s)
+    except mp.TimeoutError:
+        raise Violation("hang-in-enumeration", "an enumeration worker did not return within %d s" % timeout_s)
+    finally:
+        pool.terminate()
+
+
 # --------------------------------------------------------------------------
 # sharding
 
@@ -448,7 +489,7 @@ def _shard_entry(args):
 def run_sharded(prop, tier, seed, ctx):
     b = prop.budget(tier)
     shards = b.get("shards", 1)
-    examples = b["examples"]
+    examples = max(1, int(b["examples"] * float(os.environ.get("VERIF_EXAMPLES_SCALE", "1"))))
     jobs = [(prop.ID, tier, seed * 1000 + k, examples) for k in range(shards)]
     if shards == 1:
         results = [_shard_entry(jobs[0])]
